@@ -42,6 +42,9 @@ type Solver struct {
 	timeout int // ms
 	buf     strings.Builder
 	logW    io.Writer
+
+	started         bool
+	pathsSinceReset int
 }
 
 func NewSolver(kind string, timeoutMs int) (*Solver, error) {
@@ -107,12 +110,26 @@ func (s *Solver) Reset() {
 	if s.kind == "cvc5" {
 		s.send("(reset)")
 		s.send("(set-logic ALL)")
-	} else {
-		s.send("(reset)")
-		s.send("(set-option :produce-models true)")
-		s.send(fmt.Sprintf("(set-option :timeout %d)", s.timeout))
+		return
 	}
+	// A full (reset) makes z3 tear down and rebuild its context (expensive in
+	// system time); between paths a scope pop is enough. Every resetEvery paths
+	// the context is rebuilt to bound solver memory.
+	s.pathsSinceReset++
+	if s.started && s.pathsSinceReset < resetEvery {
+		s.send("(pop 1)")
+		s.send("(push 1)")
+		return
+	}
+	s.started = true
+	s.pathsSinceReset = 0
+	s.send("(reset)")
+	s.send("(set-option :produce-models true)")
+	s.send(fmt.Sprintf("(set-option :timeout %d)", s.timeout))
+	s.send("(push 1)")
 }
+
+const resetEvery = 256
 
 // name returns the SMT-LIB identifier for t, emitting declarations and
 // definitions for every node not yet known in this session.
@@ -231,6 +248,37 @@ func (s *Solver) Check(extra ...*Term) SatResult {
 		s.NUnk++
 	}
 	return res
+}
+
+// CheckBoth decides c and (not c) under the current assertions in one round
+// trip (z3 only; cvc5 falls back to two calls).
+func (s *Solver) CheckBoth(c *Term) (SatResult, SatResult) {
+	if s.kind == "cvc5" {
+		rt := s.Check(c)
+		rf := s.Check(Not(c))
+		return rt, rf
+	}
+	n := s.name(c)
+	nn := s.name(Not(c))
+	s.send("(check-sat-assuming (" + n + "))")
+	s.send("(check-sat-assuming (" + nn + "))")
+	t0 := time.Now()
+	s.flush()
+	rt := s.readCheck()
+	rf := s.readCheck()
+	s.Time += time.Since(t0)
+	for _, r := range []SatResult{rt, rf} {
+		s.Queries++
+		switch r {
+		case Sat:
+			s.NSat++
+		case Unsat:
+			s.NUnsat++
+		default:
+			s.NUnk++
+		}
+	}
+	return rt, rf
 }
 
 func (s *Solver) readCheck() SatResult {
